@@ -9,6 +9,7 @@ mod c04;
 mod c05;
 mod c10;
 mod c11;
+mod c12;
 mod c15;
 mod c20;
 
@@ -28,6 +29,9 @@ fn main() {
         "c11-chunk" => { let lo = count; let hi: usize = outdir.parse().unwrap(); c11::run_chunk(seed, lo, hi); 0 }
         "c05" => c05::run(seed, count, &outdir).unwrap(),
         "c10" => c10::run(seed, count, &outdir).unwrap(),
+        "c12" => c12::run(seed, count, &outdir, "c12").unwrap(),
+        "c13" => c12::run(seed, count, &outdir, "c13").unwrap(),
+        "c12-deep" => c12::deep_child(),
         "c15" => c15::run(seed, count, &outdir).unwrap(),
         "c20" => c20::run(seed, count, &outdir).unwrap(),
         "c02" => c02::run(seed, count, &outdir).unwrap(),
